@@ -500,7 +500,7 @@ fn gen_parser(rng: &mut Rng, cfg: &GenCfg, sw: &Swarm, n: usize) -> ValParser {
                 if rng.chance(1, 4) {
                     pv.aliases.push(format!("pal{n:03}{}", (b'a' + i as u8) as char));
                 }
-                if cfg.help_features && rng.chance(1, 4) && k > 1 && i > 0 {
+                if cfg.help_features && ((rng.chance(1, 4) && k > 1 && i > 0) || rng.chance(1, 12)) {
                     pv.hide = true;
                 }
                 if cfg.help_features && rng.chance(1, 3) {
